@@ -30,7 +30,8 @@ Print Assumptions C05_submit_after_shutdown_raises.
 Theorem C05_structure :
   run_normal_exit = [FlagExecutorShuttingDown; JoinInternals] /\ hd_error joining_ops = Some ShutdownWorkers
   /\ last joining_ops ClearPending = JoinAllProcesses /\ clean_exit_pops_releases_joins = true
-  /\ shutdown_joins_manager_when_wait = true /\ shutdown_flags_then_wakes = true.
+  /\ shutdown_joins_manager_when_wait = true /\ shutdown_flags_then_wakes = true
+  /\ shutdown_wakes_joins_iff_wait_and_forgets_only_a_joined_manager = true.
 Proof. repeat split; reflexivity. Qed.
 Print Assumptions C05_structure.
 
